@@ -17,7 +17,7 @@ LastK == sched'[Len(sched')].k
 Ev(e) == \/ e.ev = "start"   /\ Start   /\ UNCHANGED nret
          \/ e.ev = "resume"  /\ Resume  /\ UNCHANGED nret
          \/ e.ev = "drop"    /\ Drop    /\ UNCHANGED nret
-         \/ e.ev = "deliver" /\ Deliver /\ LastK = e.k /\ UNCHANGED nret
+         \/ e.ev = "deliver" /\ DeliverK(e.k) /\ LastK = e.k /\ UNCHANGED nret
          \/ e.ev = "pending" /\ Pending /\ UNCHANGED nret
          \/ e.ev = "fail"    /\ Fail    /\ UNCHANGED nret
          \/ e.ev = "eof"     /\ Eof     /\ UNCHANGED nret
